@@ -178,6 +178,21 @@ def expand(state):
                     for p in oracles(state, fres, ev):
                         vs.append((dict(sig0, what=p['what'], fault='delete-fails'),
                                    {'hist': fres.state.hist, 'problem': p, 'failing_delete_index': k}))
+        # a delete that names an own snapshot together with one of another key holder of the same family: it may be
+        # refused as a whole; if it goes ahead, whatever stays listed keeps every chunk it references
+        if ev[0] == 'del' and res.exc is None:
+            fam_ = state.users[ev[1]]['family']
+            foreign = [e for e in state.ledger if e['owner'] != ev[1] and state.users[e['owner']]['family'] == fam_]
+            if foreign:
+                names_ = tuple(state.ledger[i]['name'] for i in ev[2]) + (foreign[0]['name'],)
+                mres = H.apply(state, ('delname', ev[1], names_), fsdirs)
+                FAULT_RUNS[0] += 1
+                if mres.exc is None or mres.state.o != state.o:
+                    gone = tuple(i for i, e in enumerate(state.ledger) if e['loc'] not in mres.state.o)
+                    mres.state.ledger = [e for e in state.ledger if e['loc'] in mres.state.o]
+                    for p in H.invariant_restorable(mres.state, fsdirs)[:1]:
+                        vs.append((dict(sig0, what=p['what'], variant='own+foreign-names'),
+                                   {'hist': state.hist + [['delname', ev[1], 'own+foreign']], 'problem': p}))
         # remaining snapshots stay restorable (guards the oracles above against vacuity)
         if ev[0] != 'snap':
             for p in H.invariant_restorable(new, fsdirs)[:1]:
